@@ -46,7 +46,11 @@ NET_OPS = [["set_channel", 0], ["set_channel", 90], ["set_pa_level", -12], ["set
 BLE_OPS = [["name", "nRF"], ["name", None], ["show_pa_level", True], ["show_pa_level", False], ["hop_channel"],
            ["set_channel", 26], ["set_channel", 80], ["set_channel", 50], ["set_pa_level", -18], ["set_pa_level", 0],
            ["set_payload_length", 24], ["set_payload_length", 32], ["interrupt_config", True, False, False],
-           ["set_arc", 3], ["set_listen", True], ["set_listen", False], ["set_power", True], ["get_channel"]]
+           ["set_arc", 3], ["set_listen", True], ["set_listen", False], ["set_power", True], ["get_channel"],
+           # configuration calls a FakeBLE object refuses (NotImplementedError), through every inherited entry point: a refused call leaves
+           # neither the radio nor what the object re-establishes on its next entry changed
+           ["set_auto_ack", True], ["set_dynamic_payloads", True], ["set_ack", True], ["set_data_rate", 2], ["set_address_length", 3], ["set_crc", 1],
+           ["call_set_auto_ack", True, 1], ["call_set_auto_ack", True, 0], ["call_set_dynamic_payloads", True, 2], ["call_open_rx_pipe", 1], ["call_open_tx_pipe"]]
 
 
 def count(tier):
@@ -80,6 +84,11 @@ def make(i, base_seed, tier):
         if xr.random() < 0.3:
             # traffic inside the block (not only configuration): the object transmits - to a peer that is not there - and listens again
             ops.insert(xr.randint(0, len(ops)), ["traffic", xr.getrandbits(16)])
+        if cls == "RF24" and xr.random() < 0.12:
+            # the block ends with the carrier test (start, stop).  On chips the driver takes for non-plus the test overwrites configuration
+            # (documented) and the documented way back is the object's next `with` entry: it re-establishes what the object had set
+            # up before the test.  (On plus chips stop_carrier_wave() restores by itself.)
+            ops.append(["carrier_test"])
         blocks.append({"who": who, "ops": ops})
     return {"seed": seed, "classes": classes, "blocks": blocks, "plus": rng.random() < 0.7, "dirty": rng.random() < 0.4,
             "backend": rng.choice(["spidev", "busio"])}
@@ -149,6 +158,14 @@ def _ble_call(obj, op):
         obj.hop_channel()
     elif n == "interrupt_config":
         obj.interrupt_config(*a)
+    elif n == "call_set_auto_ack":
+        obj.set_auto_ack(a[0], a[1])
+    elif n == "call_set_dynamic_payloads":
+        obj.set_dynamic_payloads(a[0], a[1])
+    elif n == "call_open_rx_pipe":
+        obj.open_rx_pipe(a[0], b"\x51\x52\x53\x54\x55")
+    elif n == "call_open_tx_pipe":
+        obj.open_tx_pipe(b"\x61\x62\x63\x64\x65")
     elif n.startswith("set_"):
         setattr(obj, n[4:], a[0])
     elif n.startswith("get_"):
@@ -193,6 +210,7 @@ def _run(scn, w, res):
         objs.append(o)
         last.append(_snap(radio))
     foreign_change = [False] * len(objs)
+    carrier_done = [False] * len(objs)
     names = []
     for blk in scn["blocks"]:
         who = blk["who"]
@@ -209,6 +227,13 @@ def _run(scn, w, res):
                     "%s #%d: entering its block raised %r" % (cls, who, e))
             break
         got = _snap(radio)
+        if carrier_done[who]:
+            # the carrier test put the radio into TX mode itself (start_carrier_wave() calls listen = False, which opens pipe 0 for
+            # acknowledgements): role bit and pipe 0's enable bit are the test's business, everything else is the object's configuration
+            got = dict(got)
+            got[0] = bytes([got[0][0] & 0x7C])
+            got[2] = bytes([got[2][0] & 0x3E])
+            carrier_done[who] = False
         if before_enter != last[who]:
             foreign_change[who] = True
             res.nontrivial = True
@@ -220,10 +245,17 @@ def _run(scn, w, res):
             o.__exit__(None, None, None)
             break
         names.append((who, [op[0] for op in blk["ops"]]))
+        before_carrier = None
         for op in blk["ops"]:
             sim.log("call", cls, op[0])
             try:
-                if op[0] == "traffic":
+                if op[0] == "carrier_test":
+                    if not o.is_plus_variant:
+                        before_carrier = _snap(radio)
+                        sim.count("nonplus_carrier_test_at_end_of_block")
+                    o.start_carrier_wave()
+                    o.stop_carrier_wave()
+                elif op[0] == "traffic":
                     _traffic(o, cls, op[1])
                     sim.count("traffic_inside_block")
                 elif cls == "RF24":
@@ -239,6 +271,11 @@ def _run(scn, w, res):
             except (ValueError, IndexError, NotImplementedError):
                 pass
         last[who] = _snap(radio)
+        if before_carrier is not None:
+            last[who] = dict(before_carrier)
+            last[who][0] = bytes([last[who][0][0] & 0x7C])
+            last[who][2] = bytes([last[who][2][0] & 0x3E])
+            carrier_done[who] = True
         try:
             o.__exit__(None, None, None)
         except SimAbort:
